@@ -1,5 +1,6 @@
 import Goflow.Gen.Prng
 import Goflow.Spec.V5
+import Goflow.Producer.Raw
 /-! Generator for C05: headers and record lists (0..30), exact datagrams, truncations
     (k complete records + a partial one) and header counts around k. -/
 namespace Goflow.Gen.C05
@@ -26,8 +27,12 @@ def genCase : G (List String) := do
     let h ← genHeader k
     let d := Spec.V5.encode h rs
     -- the same datagram as it reaches the decoder in production: through the NetFlow pipe (one message per record)
+    -- … and through the auto-detecting pipe (`flow://`), which tells v5 from sFlow by the first word; and as the raw producer
+    -- prints the decoded packet (`-produce raw -format json`)
+    let pipe ← pick ["nf", "auto"]
     pure (["call v5 " ++ hexOf d] ++ expectOk ⟨5, h, rs⟩ ++
-          ["pkt nf 0a000001 2055 1700000000000000000 " ++ hexOf d, "expect @res ok", "expect @count " ++ toString k])
+          ["pkt " ++ pipe ++ " 0a000001 2055 1700000000000000000 " ++ hexOf d, "expect @res ok", "expect @count " ++ toString k] ++
+          (if mode < 2 then ["call rawv5 " ++ hexOf d, "expect res ok", "expect json " ++ Raw.rawJsonV5 ⟨5, h, rs⟩] else []))
   else
     -- k complete records, a partial one (0..47 bytes), header count c ∈ {k-1,k,k+1,30,65535,random}
     let cm ← below 8
@@ -48,7 +53,7 @@ def genCase : G (List String) := do
     pure (["call v5 " ++ hexOf d] ++ expectOk ⟨5, h, rs.take (min c k)⟩)
 
 def gen (n : Nat) : G (List String) := do
-  let mut out : List String := ["reset", "cfg c0 none", "pipe nf netflow c0"]
+  let mut out : List String := ["reset", "cfg c0 none", "pipe nf netflow c0", "pipe auto flow c0"]
   for _ in [0:n] do
     out := out ++ (← genCase)
   pure out
